@@ -91,9 +91,97 @@ fn run_bigreq(toks: &[&str]) -> String {
     })
 }
 
+/// `bigevt <n> <cut> <req> <lines>`: the server's reply to `idle` is `changed: <name of n bytes>` (as line number <lines>, after
+/// <lines>-1 ordinary `changed: player` lines) and arrives in two parts, the first <cut> bytes at once and the rest 60 ms later; with
+/// req = 1 the application issues a `ping` in between (which cancels the receive in progress and makes the loop send `noidle`), with
+/// req = 0 nothing happens meanwhile.  Prints the events delivered (long names as their length and byte sum) and the request results.
+fn run_bigevt(toks: &[&str]) -> String {
+    use mpd_protocol::command::Command as RawCommand;
+    let n: usize = toks.get(1).and_then(|x| x.parse().ok()).unwrap_or(0);
+    let cut: usize = toks.get(2).and_then(|x| x.parse().ok()).unwrap_or(0);
+    let with_req = toks.get(3) == Some(&"1");
+    let lines: usize = toks.get(4).and_then(|x| x.parse().ok()).unwrap_or(1).max(1);
+    let rt = tokio::runtime::Builder::new_current_thread().enable_all().start_paused(true).build().unwrap();
+    rt.block_on(async move {
+        let (server_io, client_io) = tokio::io::duplex(1 << 16);
+        let server = tokio::spawn(async move {
+            let (rd, mut wr) = tokio::io::split(server_io);
+            let mut rd = BufReader::new(rd);
+            wr.write_all(b"OK MPD 0.23.5\n").await.ok();
+            let mut reply: Vec<u8> = Vec::new();
+            for _ in 1..lines {
+                reply.extend_from_slice(b"changed: player\n");
+            }
+            reply.extend_from_slice(b"changed: ");
+            reply.extend((0..n).map(|i| b'a' + (i % 23) as u8));
+            reply.extend_from_slice(b"\nOK\n");
+            let cut = cut.min(reply.len());
+            let mut line = String::new();
+            let mut first = true;
+            let mut idle_open = false;
+            let mut session: Vec<String> = Vec::new();
+            loop {
+                line.clear();
+                match rd.read_line(&mut line).await {
+                    Ok(0) | Err(_) => break,
+                    Ok(_) => {}
+                }
+                let l = line.trim_end_matches('\n').to_string();
+                session.push(l.clone());
+                if l == "idle" {
+                    if first {
+                        first = false;
+                        wr.write_all(&reply[..cut]).await.ok();
+                        wr.flush().await.ok();
+                        tokio::time::sleep(std::time::Duration::from_millis(60)).await;
+                        wr.write_all(&reply[cut..]).await.ok();
+                    } else {
+                        idle_open = true;
+                    }
+                    continue;
+                }
+                if l == "noidle" {
+                    // a noidle that crosses a reply which has already ended the idle is answered with nothing (as MPD does)
+                    if idle_open {
+                        idle_open = false;
+                        wr.write_all(b"OK\n").await.ok();
+                    }
+                    continue;
+                }
+                idle_open = false;
+                wr.write_all(b"OK\n").await.ok();
+            }
+            session
+        });
+        let Ok((client, mut events)) = Client::connect(client_io).await else { return "connect-error".to_string() };
+        let mut results = Vec::new();
+        if with_req {
+            tokio::time::sleep(std::time::Duration::from_millis(25)).await;
+            let r = tokio::time::timeout(std::time::Duration::from_secs(20), client.raw_command(RawCommand::new("ping"))).await;
+            results.push(match r {
+                Ok(Ok(_)) => "ok".to_string(),
+                Ok(Err(e)) => format!("err:{}", format!("{e:?}").chars().take(60).collect::<String>().replace(' ', "_")),
+                Err(_) => "timeout".to_string(),
+            });
+        }
+        tokio::time::sleep(std::time::Duration::from_millis(300)).await;
+        drop(client);
+        let mut evs = Vec::new();
+        while let Ok(Some(ev)) = tokio::time::timeout(std::time::Duration::from_secs(5), events.next()).await {
+            let s = format!("{ev:?}").replace(' ', "_");
+            evs.push(if s.len() > 120 { format!("{}..(len={},sum={})", &s[..40], s.len(), s.bytes().map(|b| b as u64).sum::<u64>()) } else { s });
+        }
+        let session = tokio::time::timeout(std::time::Duration::from_secs(10), server).await.ok().and_then(|r| r.ok()).unwrap_or_default();
+        format!("events={} results={} session={}", evs.join(","), results.join(","), session.join(","))
+    })
+}
+
 pub fn run(toks: &[&str]) -> String {
     if toks[0] == "bigreq" {
         return run_bigreq(toks);
+    }
+    if toks[0] == "bigevt" {
+        return run_bigevt(toks);
     }
     if toks.len() < 5 {
         return "bad-args".into();
